@@ -6,18 +6,29 @@ namespace PPLV.Checked
 open Result
 
 /-- the `int_fast` type used by `Larger<T>` is at least twice as wide (and has 3 bits) -/
-structure IntTy.LargerOK (t : IntTy) : Prop where
+structure IntTy.LargerW (t : IntTy) : Prop where
   twice : 2 * t.bits ≤ t.lbits
   three : 3 ≤ t.lbits
 
-theorem larger_wf {t : IntTy} (h : t.LargerOK) (sg : Bool) (π : Policy) : (t.larger sg).WF π :=
+/-- … whenever `Larger<T>` routes some operation through it -/
+structure IntTy.LargerOK (t : IntTy) : Prop where
+  ok : (t.useNeg = true ∨ t.useAdd = true ∨ t.useSub = true ∨ t.useMul = true) → t.LargerW
+
+theorem IntTy.LargerOK.of_neg {t : IntTy} (h : t.LargerOK) (u : t.useNeg = true) : t.LargerW := h.ok (Or.inl u)
+theorem IntTy.LargerOK.of_add {t : IntTy} (h : t.LargerOK) (u : t.useAdd = true) : t.LargerW := h.ok (Or.inr (Or.inl u))
+theorem IntTy.LargerOK.of_sub {t : IntTy} (h : t.LargerOK) (u : t.useSub = true) : t.LargerW :=
+  h.ok (Or.inr (Or.inr (Or.inl u)))
+theorem IntTy.LargerOK.of_mul {t : IntTy} (h : t.LargerOK) (u : t.useMul = true) : t.LargerW :=
+  h.ok (Or.inr (Or.inr (Or.inr u)))
+
+theorem larger_wf {t : IntTy} (h : t.LargerW) (sg : Bool) (π : Policy) : (t.larger sg).WF π :=
   ⟨by have := h.three; simp [IntTy.larger]; omega, fun _ => by have := h.three; simp [IntTy.larger]; omega⟩
 
-theorem larger_gap {t : IntTy} (h : t.LargerOK) (sg : Bool) : t.GapOK (t.larger sg) := by
+theorem larger_gap {t : IntTy} (h : t.LargerW) (sg : Bool) : t.GapOK (t.larger sg) := by
   have := h.twice
   left; simp [IntTy.larger]; omega
 
-theorem larger_half {t : IntTy} (hb : 1 ≤ t.bits) (h : t.LargerOK) (sg : Bool) :
+theorem larger_half {t : IntTy} (hb : 1 ≤ t.bits) (h : t.LargerW) (sg : Bool) :
     2 * t.half * t.half ≤ (t.larger sg).half ∧ 4 ≤ (t.larger sg).half
       ∧ 2 * t.half + 2 ≤ (t.larger sg).half := by
   have h2 := h.twice; have h3 := h.three
@@ -38,7 +49,7 @@ theorem larger_half {t : IntTy} (hb : 1 ≤ t.bits) (h : t.LargerOK) (sg : Bool)
   · nlinarith
 
 /-- a value that is small relative to the larger type is one of its finite values -/
-theorem larger_finite_signed {t : IntTy} {π : Policy} (hb : 1 ≤ t.bits) (h : t.LargerOK) {v : Int}
+theorem larger_finite_signed {t : IntTy} {π : Policy} (hb : 1 ≤ t.bits) (h : t.LargerW) {v : Int}
     (hv : -(t.larger true).half + 2 ≤ v ∧ v ≤ (t.larger true).half - 2) : (t.larger true).finite π v := by
   obtain ⟨_, h4, _⟩ := larger_half hb h true
   have e : (t.larger true).signed = true := rfl
@@ -47,7 +58,7 @@ theorem larger_finite_signed {t : IntTy} {π : Policy} (hb : 1 ≤ t.bits) (h : 
   simp [e]
   cases π.hasNan <;> cases π.hasInfinity <;> simp <;> omega
 
-theorem larger_finite_unsigned {t : IntTy} {π : Policy} (hb : 1 ≤ t.bits) (h : t.LargerOK) {v : Int}
+theorem larger_finite_unsigned {t : IntTy} {π : Policy} (hb : 1 ≤ t.bits) (h : t.LargerW) {v : Int}
     (hv : 0 ≤ v ∧ v ≤ 2 * (t.larger false).half - 4) : (t.larger false).finite π v := by
   obtain ⟨_, h4, _⟩ := larger_half hb h false
   have e : (t.larger false).signed = false := rfl
@@ -63,9 +74,14 @@ theorem IntTy.finite_bounds {t : IntTy} {π : Policy} {v : Int} (h : t.finite π
   unfold IntTy.inRange IntTy.cmin IntTy.cmax at this
   constructor <;> intro hs <;> simp [hs] at this <;> omega
 
+theorem IntTy.inRange_bounds {t : IntTy} {v : Int} (h : t.inRange v) :
+    (t.signed = true → -t.half ≤ v ∧ v ≤ t.half - 1) ∧ (t.signed = false → 0 ≤ v ∧ v ≤ 2 * t.half - 1) := by
+  unfold IntTy.inRange IntTy.cmin IntTy.cmax at h
+  constructor <;> intro hs <;> simp [hs] at h <;> omega
+
 /-! ## neg -/
 
-theorem negLarger_tri {t : IntTy} {π : Policy} (w : t.WF π) (hl : t.LargerOK) (hco : π.checkOverflow = true)
+theorem negLarger_tri {t : IntTy} {π : Policy} (w : t.WF π) (hl : t.LargerW) (hco : π.checkOverflow = true)
     (dir : Dir) {to0 x : Int} (h0 : t.inRange to0) (hx : t.finite π x) :
     Tri t π dir to0 (negLarger t π to0 x dir) (-x) := by
   unfold negLarger
@@ -84,7 +100,7 @@ theorem negSigned_tri {t : IntTy} {π : Policy} (w : t.WF π) (hs : t.signed = t
   unfold negSigned
   simp only [hco, Bool.true_and, decide_eq_true_eq]
   split
-  · exact negLarger_tri w hl hco dir h0 hx
+  · rename_i hu; exact negLarger_tri w (hl.of_neg hu) hco dir h0 hx
   · split
     · exact tri_pos (by omega)
     · apply tri_eq
@@ -102,7 +118,7 @@ theorem negUnsigned_tri {t : IntTy} {π : Policy} (w : t.WF π) (hs : t.signed =
   unfold negUnsigned
   simp only [hco, Bool.true_and]
   split
-  · exact negLarger_tri w hl hco dir h0 hx
+  · rename_i hu; exact negLarger_tri w (hl.of_neg hu) hco dir h0 hx
   · split
     · rename_i hne
       apply tri_neg
@@ -126,13 +142,13 @@ theorem neg_tri {t : IntTy} {π : Policy} (w : t.WF π) (hl : t.LargerOK)
 
 /-! ## add -/
 
-theorem addLarger_tri {t : IntTy} {π : Policy} (w : t.WF π) (hl : t.LargerOK) (hco : π.checkOverflow = true)
-    (dir : Dir) {to0 x y : Int} (h0 : t.inRange to0) (hx : t.finite π x) (hy : t.finite π y) :
+theorem addLarger_tri {t : IntTy} {π : Policy} (w : t.WF π) (hl : t.LargerW) (hco : π.checkOverflow = true)
+    (dir : Dir) {to0 x y : Int} (h0 : t.inRange to0) (hx : t.finite π x) (hy : t.inRange y) :
     Tri t π dir to0 (addLarger t π to0 x y dir) (x + y) := by
   unfold addLarger
   apply assignInt_tri w (larger_wf hl _ π) hco (larger_gap hl _) dir h0
   obtain ⟨bx1, bx2⟩ := IntTy.finite_bounds hx
-  obtain ⟨by1, by2⟩ := IntTy.finite_bounds hy
+  obtain ⟨by1, by2⟩ := IntTy.inRange_bounds hy
   have hp := t.half_pos
   cases hs : t.signed
   · apply larger_finite_unsigned w.bits_pos hl
@@ -144,12 +160,12 @@ theorem addLarger_tri {t : IntTy} {π : Policy} (w : t.WF π) (hl : t.LargerOK) 
 
 theorem addSigned_tri {t : IntTy} {π : Policy} (w : t.WF π) (hl : t.LargerOK)
     (hco : π.checkOverflow = true) (dir : Dir) {to0 x y : Int} (h0 : t.inRange to0)
-    (hx : t.finite π x) (hy : t.finite π y) :
+    (hx : t.finite π x) (hy : t.inRange y) :
     Tri t π dir to0 (addSigned t π to0 x y dir) (x + y) := by
   unfold addSigned
   simp only [hco, Bool.true_and, Bool.and_eq_true, decide_eq_true_eq, Bool.not_eq_true', decide_eq_false_iff_not]
   split
-  · exact addLarger_tri w hl hco dir h0 hx hy
+  · rename_i hu; exact addLarger_tri w (hl.of_add hu) hco dir h0 hx hy
   · split
     · exact tri_pos (by omega)
     · split
@@ -161,23 +177,24 @@ theorem addSigned_tri {t : IntTy} {π : Policy} (w : t.WF π) (hl : t.LargerOK)
 
 theorem addUnsigned_tri {t : IntTy} {π : Policy} (w : t.WF π) (hs : t.signed = false) (hl : t.LargerOK)
     (hco : π.checkOverflow = true) (dir : Dir) {to0 x y : Int} (h0 : t.inRange to0)
-    (hx : t.finite π x) (hy : t.finite π y) :
+    (hx : t.finite π x) (hy : t.inRange y) :
     Tri t π dir to0 (addUnsigned t π to0 x y dir) (x + y) := by
   unfold addUnsigned
   simp only [hco, Bool.true_and, decide_eq_true_eq]
   split
-  · exact addLarger_tri w hl hco dir h0 hx hy
+  · rename_i hu; exact addLarger_tri w (hl.of_add hu) hco dir h0 hx hy
   · split
     · exact tri_pos (by omega)
     · apply tri_eq
       obtain ⟨h1, h2⟩ := hx
       obtain ⟨h3, h4⟩ := hy
       have e : t.emin π = 0 := by simp [IntTy.emin, IntTy.cmin, hs]
+      have c0 : t.cmin = 0 := by simp [IntTy.cmin, hs]
       constructor <;> omega
 
 theorem add_tri {t : IntTy} {π : Policy} (w : t.WF π) (hl : t.LargerOK)
     (hco : π.checkOverflow = true) (dir : Dir) {to0 x y : Int} (h0 : t.inRange to0)
-    (hx : t.finite π x) (hy : t.finite π y) :
+    (hx : t.finite π x) (hy : t.inRange y) :
     Tri t π dir to0 (add t π to0 x y dir) (x + y) := by
   unfold add
   cases hs : t.signed
@@ -186,13 +203,13 @@ theorem add_tri {t : IntTy} {π : Policy} (w : t.WF π) (hl : t.LargerOK)
 
 /-! ## sub -/
 
-theorem subLarger_tri {t : IntTy} {π : Policy} (w : t.WF π) (hl : t.LargerOK) (hco : π.checkOverflow = true)
-    (dir : Dir) {to0 x y : Int} (h0 : t.inRange to0) (hx : t.finite π x) (hy : t.finite π y) :
+theorem subLarger_tri {t : IntTy} {π : Policy} (w : t.WF π) (hl : t.LargerW) (hco : π.checkOverflow = true)
+    (dir : Dir) {to0 x y : Int} (h0 : t.inRange to0) (hx : t.finite π x) (hy : t.inRange y) :
     Tri t π dir to0 (subLarger t π to0 x y dir) (x - y) := by
   unfold subLarger
   apply assignInt_tri w (larger_wf hl _ π) hco (larger_gap hl _) dir h0
   obtain ⟨bx1, bx2⟩ := IntTy.finite_bounds hx
-  obtain ⟨by1, by2⟩ := IntTy.finite_bounds hy
+  obtain ⟨by1, by2⟩ := IntTy.inRange_bounds hy
   have hp := t.half_pos
   apply larger_finite_signed w.bits_pos hl
   obtain ⟨_, _, h3⟩ := larger_half w.bits_pos hl true
@@ -202,12 +219,12 @@ theorem subLarger_tri {t : IntTy} {π : Policy} (w : t.WF π) (hl : t.LargerOK) 
 
 theorem subSigned_tri {t : IntTy} {π : Policy} (w : t.WF π) (hl : t.LargerOK)
     (hco : π.checkOverflow = true) (dir : Dir) {to0 x y : Int} (h0 : t.inRange to0)
-    (hx : t.finite π x) (hy : t.finite π y) :
+    (hx : t.finite π x) (hy : t.inRange y) :
     Tri t π dir to0 (subSigned t π to0 x y dir) (x - y) := by
   unfold subSigned
   simp only [hco, Bool.true_and, Bool.and_eq_true, decide_eq_true_eq, Bool.not_eq_true', decide_eq_false_iff_not]
   split
-  · exact subLarger_tri w hl hco dir h0 hx hy
+  · rename_i hu; exact subLarger_tri w (hl.of_sub hu) hco dir h0 hx hy
   · split
     · exact tri_neg (by omega)
     · split
@@ -219,23 +236,24 @@ theorem subSigned_tri {t : IntTy} {π : Policy} (w : t.WF π) (hl : t.LargerOK)
 
 theorem subUnsigned_tri {t : IntTy} {π : Policy} (w : t.WF π) (hs : t.signed = false) (hl : t.LargerOK)
     (hco : π.checkOverflow = true) (dir : Dir) {to0 x y : Int} (h0 : t.inRange to0)
-    (hx : t.finite π x) (hy : t.finite π y) :
+    (hx : t.finite π x) (hy : t.inRange y) :
     Tri t π dir to0 (subUnsigned t π to0 x y dir) (x - y) := by
   unfold subUnsigned
   simp only [hco, Bool.true_and, decide_eq_true_eq]
   split
-  · exact subLarger_tri w hl hco dir h0 hx hy
+  · rename_i hu; exact subLarger_tri w (hl.of_sub hu) hco dir h0 hx hy
   · split
     · exact tri_neg (by omega)
     · apply tri_eq
       obtain ⟨h1, h2⟩ := hx
       obtain ⟨h3, h4⟩ := hy
       have e : t.emin π = 0 := by simp [IntTy.emin, IntTy.cmin, hs]
+      have c0 : t.cmin = 0 := by simp [IntTy.cmin, hs]
       constructor <;> omega
 
 theorem sub_tri {t : IntTy} {π : Policy} (w : t.WF π) (hl : t.LargerOK)
     (hco : π.checkOverflow = true) (dir : Dir) {to0 x y : Int} (h0 : t.inRange to0)
-    (hx : t.finite π x) (hy : t.finite π y) :
+    (hx : t.finite π x) (hy : t.inRange y) :
     Tri t π dir to0 (sub t π to0 x y dir) (x - y) := by
   unfold sub
   cases hs : t.signed
